@@ -453,6 +453,214 @@ class DynRelaxation(Unit):
 
 
 # ------------------------------------------------------------------------------------------------------
+# LogDynamics.relaxation: the same pair quantities with the first frame as the only origin
+
+
+class LogRelaxation(Unit):
+    module = MOD
+    qualname = "LogDynamics.relaxation"
+    prop = "C06"
+    timeout = 20
+
+    def cases(self):
+        out = []
+        for d in (2, 3):
+            for coords in ("xu", "x-only"):
+                for cg in ("nocage", "cage"):
+                    for cd in ("all", "condition"):
+                        out.append(f"d={d}/slow/{coords}/{cg}/{cd}")
+            out.append(f"d={d}/fast/xu/nocage/all")
+            out.append(f"d={d}/fast/x-only/cage/condition")
+        return out
+
+    def setup(self, ctx, case):
+        d, fast, pbc, cage, cond = _parse(case)
+        W = World(ctx, d, pbc, cage, cond, fast, log_cond=True)
+        ctx.interp.summaries = {"PyMatterSim.utils.pbc.remove_pbc": summ_remove_pbc(W), MOD + ".cage_relative": summ_cage_relative(W)}
+        S = W.snapshots(ctx)
+        if cage:
+            nl = W.nl_array(0)
+            ctx.assume(W.pre_nl(0, 0, 0))      # instance of "every neighbour row is well formed" at particle 0 (N >= 1)
+        else:
+            nl = A.zeros((3,), "float")        # what __init__ stores when no neighbour file is given
+        self_ = ctx.obj(MOD, "LogDynamics", {"ppp": W.ppp, "ndim": d, "cal_type": "fast" if fast else "slow", "snapshots": S,
+                                             "x_snapshots": None, "PBC": pbc, "time": W.tm, "diameters": W.diam, "a2_cuts": W.a2,
+                                             "neighborlists": nl})
+        k = ctx.int("k")
+        inp = dict(W=W, k=k, watch=[W.X.sid, W.tm.sid, W.diam.sid, W.a2.sid, W.ppp.sid] + ([W.HM.sid] if pbc else []) + ([W.C.sid] if cond else []))
+        return [self_, W.qconst, (W.C if cond else None), ""], {}, inp
+
+    def clause_names(self, case):
+        return ["result-is-a-frame-of-6-columns-and-T-1-rows", "t:time-axis", "isf:mean-cos-first-frame-origin", "Qt:overlap-fraction-first-frame-origin",
+                "X4_Qt:zero", "msd:first-frame-origin", "alpha2:c_d-M4/M2^2-1", "frame-inputs-not-written"]
+
+    def ensures(self, ctx, case, inp, out):
+        W, k = inp["W"], inp["k"]
+        T, d = W.T, W.d
+        res = out.value
+        ok = isinstance(res, Ref) and res.kind == "df"
+        cols = None
+        if ok:
+            c = res.content
+            ok = list(c["order"]) == "t isf Qt X4_Qt msd alpha2".split() and A.dim_eq_syntactic(c["n"], sv.sub(T, 1))
+            cols = c["cols"]
+        yield "result-is-a-frame-of-6-columns-and-T-1-rows", bool(ok)
+        if not ok:
+            return
+        ink = _in(0, k, sv.sub(T, 1))
+        col = {name: cols[name].get((k,)) for name in cols}
+        P = W.pair(0, sv.add(k, 1))
+        opts = {"abstract_nl": True, "solver_opts": NO_UNFOLD}
+        yield "t:time-axis", sv.implies(ink, sv.cmp("==", col["t"], W.tm.get((k,))))
+        yield "isf:mean-cos-first-frame-origin", sv.implies(ink, sv.cmp("==", col["isf"], P["F"])), opts
+        yield "Qt:overlap-fraction-first-frame-origin", sv.implies(ink, sv.cmp("==", col["Qt"], P["Q"])), opts
+        yield "X4_Qt:zero", sv.implies(ink, sv.cmp("==", col["X4_Qt"], 0))
+        yield "msd:first-frame-origin", sv.implies(ink, sv.cmp("==", col["msd"], P["M2"])), opts
+        yield ("alpha2:c_d-M4/M2^2-1", sv.implies(ink, sv.cmp("==", col["alpha2"], sv.sub(sv.div(sv.mul(alpha2_prefactor(d), P["M4"]), sv.mul(P["M2"], P["M2"])), 1))), opts)
+        stores = [e for e in out.state.events if e[0] == "store" and e[1] in inp["watch"]]
+        yield "frame-inputs-not-written", len(stores) == 0
+
+    def raises(self, ctx, case, inp, out):
+        return None
+
+    def replay(self, case, clause, model, seed):
+        return _replay_relaxation("log", case, clause, model, seed)
+
+
+# ------------------------------------------------------------------------------------------------------
+# alpha2factor, cage_relative
+
+
+class Alpha2Factor(Unit):
+    module = FUNCS
+    qualname = "alpha2factor"
+    prop = "C06"
+
+    def cases(self):
+        return ["any-ndim"]
+
+    def setup(self, ctx, case):
+        nd = ctx.int("ndim")
+        return [nd], {}, {"ndim": nd}
+
+    def clause_names(self, case):
+        return ["prefactor:3/5-in-3D,1/2-in-2D", "returns-only-for-2D-3D"]
+
+    def ensures(self, ctx, case, inp, out):
+        nd = inp["ndim"]
+        yield "returns-only-for-2D-3D", sv.or_(sv.cmp("==", nd, 2), sv.cmp("==", nd, 3))
+        yield "prefactor:3/5-in-3D,1/2-in-2D", sv.cmp("==", out.value, sv.ite(sv.cmp("==", nd, 3), alpha2_prefactor(3), alpha2_prefactor(2)))
+
+    def raises(self, ctx, case, inp, out):
+        nd = inp["ndim"]
+        return sv.and_(sv.cmp("!=", nd, 2), sv.cmp("!=", nd, 3)) if out.exc == "ValueError" else None
+
+    def replay(self, case, clause, model, seed):
+        import importlib
+        F = importlib.import_module(FUNCS)
+        bad = None
+        for nd, want in ((3, 3.0 / 5.0), (2, 1.0 / 2.0)):
+            try:
+                got = F.alpha2factor(nd)
+            except Exception as e:  # noqa
+                got = f"raises {type(e).__name__}"
+            if got != want:
+                bad = f"alpha2factor({nd}) = {got!r}, the definition of alpha2 needs {want!r}"
+        for nd in (1, 4, 0):
+            try:
+                F.alpha2factor(nd)
+                bad = bad or f"alpha2factor({nd}) returns for a dimension that has no definition"
+            except ValueError:
+                pass
+        return {"ran": True, "failed": bad is not None, "searched": 5, "inputs": {"ndim": [3, 2, 1, 4, 0]}, "detail": bad or "ok"}
+
+
+class CageRelative(Unit):
+    """cage_relative(RII, cnlist)[i] = RII[i] - mean over the cn_i = cnlist[i,0] neighbours cnlist[i,1..cn_i] of RII[neighbour]"""
+    module = MOD
+    qualname = "cage_relative"
+    prop = "C06"
+
+    def cases(self):
+        return ["d=2", "d=3"]
+
+    def setup(self, ctx, case):
+        d = int(case[-1])
+        N, Wd = ctx.int("N"), ctx.int("W")
+        ctx.assume(N >= 1)
+        ctx.assume(Wd >= 2)
+        R = ctx.array("RII", (N, d), "float", origin="argument RII")
+        CN = ctx.array("cnlist", (N, Wd), "int", origin="argument cnlist")
+        i = ctx.int("i")
+        inp = dict(d=d, N=N, W=Wd, R=R, CN=CN, i=i)
+        # precondition (quantified over the rows i and the neighbour slots t)
+        qi, qt = z3.Int("qi"), z3.Int("qt")
+        ctx.assume(z3.ForAll([qi, qt], sv.zb(self.pre(inp, sv.SV(qi), sv.SV(qt)))))
+        return [R, CN], {}, inp
+
+    @staticmethod
+    def pre(inp, i, t):
+        """instance of the precondition: every row is well formed (1 <= cn <= W-1, listed ids are row indices of RII)"""
+        CN, N, Wd = inp["CN"], inp["N"], inp["W"]
+        cn = CN.get((i, 0))
+        return sv.implies(_in(0, i, N), _and(sv.cmp(">=", cn, 1), sv.cmp("<=", cn, sv.sub(Wd, 1)),
+                                             sv.implies(_in(0, t, cn), _in(0, CN.get((i, sv.add(1, t))), N))))
+
+    def clause_names(self, case):
+        return ["shape", "row-i:displacement-minus-mean-over-listed-neighbours", "frame-inputs-not-written"]
+
+    def ensures(self, ctx, case, inp, out):
+        d, N, R, CN, i = inp["d"], inp["N"], inp["R"], inp["CN"], inp["i"]
+        res = out.value
+        ok = isinstance(res, A.Arr) and res.ndim == 2 and A.dim_eq_syntactic(res.shape[0], N) and A.dim_eq_syntactic(res.shape[1], d)
+        yield "shape", bool(ok)
+        if not ok:
+            return
+        want = cage_row(lambda j: [R.get((j, a)) for a in range(d)], lambda j, c: CN.get((j, c)), i, d)
+        yield ("row-i:displacement-minus-mean-over-listed-neighbours",
+               sv.implies(_in(0, i, N), _and(*[sv.cmp("==", res.get((i, a)), want[a]) for a in range(d)])), {"abstract_nl": True})
+        stores = [e for e in out.state.events if e[0] == "store" and e[1] in (R.sid, CN.sid)]
+        yield "frame-inputs-not-written", len(stores) == 0
+
+    def raises(self, ctx, case, inp, out):
+        return None
+
+    def replay(self, case, clause, model, seed):
+        import importlib
+
+        import numpy as np
+        d = int(case[-1])
+        Dm = importlib.import_module(MOD)
+        rng = np.random.default_rng(seed + 7)
+        tried = 0
+        for rep in range(200):
+            N = int(rng.integers(2, 8))
+            Wd = int(rng.integers(2, 7))
+            R = rng.normal(size=(N, d))
+            CN = np.zeros((N, Wd), dtype=np.int32)
+            for i in range(N):
+                cn = int(rng.integers(1, min(Wd - 1, N) + 1))
+                CN[i, 0] = cn
+                CN[i, 1:cn + 1] = rng.choice(N, size=cn, replace=False)
+                CN[i, cn + 1:] = rng.integers(0, N, size=Wd - 1 - cn) if rep % 2 else 0     # padding must not matter
+            keep = (R.copy(), CN.copy())
+            tried += 1
+            try:
+                got = np.asarray(Dm.cage_relative(R, CN), dtype=float)
+            except Exception as e:  # noqa
+                return {"ran": True, "failed": True, "searched": tried, "inputs": {"RII": R.tolist(), "cnlist": CN.tolist()}, "detail": f"raises {type(e).__name__}: {e}"}
+            want = _ref_cage(R, CN.tolist())
+            bad = None
+            if got.shape != want.shape or not np.allclose(got, want, rtol=1e-9, atol=1e-12):
+                bad = f"cage_relative = {got.tolist()}, definition = {want.tolist()}"
+            elif not (np.array_equal(keep[0], R) and np.array_equal(keep[1], CN)):
+                bad = "an input array was modified"
+            if bad:
+                return {"ran": True, "failed": True, "searched": tried, "from_model": False, "inputs": {"RII": R.tolist(), "cnlist": CN.tolist()}, "detail": bad}
+        return {"ran": True, "failed": False, "searched": tried, "detail": "real code agrees with the definition on every seeded input"}
+
+
+# ------------------------------------------------------------------------------------------------------
 # replay: the real classes under CPython against an independent numpy implementation of the definitions
 
 
@@ -673,7 +881,7 @@ def _replay_relaxation(kind, case, clause, model, seed):
     return {"ran": True, "failed": False, "searched": tried, "detail": "real code agrees with the definitions on every seeded trajectory"}
 
 
-UNITS = [DynRelaxation()]
+UNITS = [DynRelaxation(), LogRelaxation(), Alpha2Factor(), CageRelative()]
 
 MANIFEST = {
     "text": "todo",
